@@ -31,14 +31,14 @@ REQUIRED = {
     "orbax_records": 100, "orbax_saves": 10, "orbax_restores": 10,
     "standard_saves": 5, "standard_restores": 5,
 }
-TIMEOUT = {"quick": 900, "thorough": 3000}
+TIMEOUT = {"quick": 900, "thorough": 7000}
 ASSUMPTIONS = ["wall-clock field of a record is excluded from the comparison",
                "steps given to the checkpointer are non-decreasing (statement)"]
 
 
 def gen_cases(tier, seed):
     rng = np.random.default_rng(seed + 2020)
-    k = 1 if tier == "quick" else 8
+    k = 1 if tier == "quick" else 24
     cases = []
     for i in range(60 * k):
         cases.append(dict(kind="stats", which=["memory", "standard", "list"][i % 3],
